@@ -7,7 +7,7 @@ def ops(*names):
 
 def gen(name, family, opset, wq=2, wt=3, **kw):
     g = {"name": name, "module": "Gen",
-         "constants": {"Family": '"%s"' % family, "OpSet": ops(*opset)},
+         "constants": {"Family": '"%s"' % family, "OpSet": ops(*opset), "RpSet": kw.pop("rp", "{0}")},
          "tier_constants": {"quick": {"Width": str(wq)}, "thorough": {"Width": str(wt)}}}
     g.update(kw)
     return g
@@ -37,16 +37,31 @@ PLANS = {
                 gen("build", "build", ["build_array", "build_object"])],
         "bounds": "bounded universe x all positions -len-2..len+2, all key subsets <=3, all key paths to depth+1; builders: all lists <=3 with keys in every order and duplicates",
     },
+    "C02": {
+        "gen": [
+            {"name": "corrupt", "module": "GenText", "constants": {"Family": '"corrupt"', "MaxLen": "0"}},
+            {"name": "fixed", "module": "GenText", "constants": {"Family": '"fixed"', "MaxLen": "0"}},
+            {"name": "numlex", "module": "GenText", "constants": {"Family": '"numlex"'}, "tier_constants": {"quick": {"MaxLen": "4"}, "thorough": {"MaxLen": "5"}}},
+            {"name": "strlex", "module": "GenText", "constants": {"Family": '"strlex"'}, "tier_constants": {"quick": {"MaxLen": "3"}, "thorough": {"MaxLen": "4"}}},
+            {"name": "soup", "module": "GenText", "constants": {"Family": '"soup"'}, "tier_constants": {"quick": {"MaxLen": "4"}, "thorough": {"MaxLen": "5"}}},
+        ],
+        "bounds": "every deletion/replacement/insertion of one of 21 tokens at every position and every byte-prefix of 9 well-formed documents; all strings of <=L characters over the number alphabet {-,0,1,9,.,e,E,+} (bare and in an array) and over a 15-character string alphabet (quotes, backslash, u, braces, hex, control, multi-byte); 10 escape units around the surrogate ranges alone/paired/mis-paired in both bracket forms; integer/float classification at 2^63, 2^64 and the ends of the double range; token soups of <=L tokens over 10 tokens",
+    },
+    "C03": {
+        "gen": [gen("render", "render", ["render"])],
+        "bounds": "strings of every code-point class (each control character 0x00-0x1F alone and embedded, DEL, quote, backslash, slash, U+2028/9, astral, replacement char) as values and keys down to three levels; every finite number of the 80-number boundary set; nested empty containers",
+    },
     "C04": {
-        "gen": [gen("cmp", "pairs", ["compare"])],
+        "gen": [gen("cmp", "pairs", ["compare"]), gen("cmp2", "pairs2", ["compare"])],
         "bounds": "all ordered pairs of the 70-document pair universe (number encodings of equal value, 2^53 neighbours, prefixes, length-only and deep differences)",
     },
     "C12": {
-        "gen": [gen("contains", "pairs", ["contains"])],
+        "gen": [gen("contains", "pairs", ["contains"]), gen("contains2", "pairs2", ["contains"])],
         "bounds": "all ordered pairs of the pair universe",
     },
     "C13": {
         "gen": [gen("sets", "pairs", ["array_intersection", "array_except", "array_overlap"]),
+                gen("sets2", "pairs2", ["array_intersection", "array_except", "array_overlap"]),
                 gen("distinct", "edit", ["array_distinct"])],
         "bounds": "all ordered pairs of the pair universe; distinct over the bounded universe",
     },
